@@ -4,7 +4,7 @@ CONSTANTS
   Types = {"string", "char16", "boolean", "datetime", "reference", "uint8", "sint8", "uint16", "sint16", "uint32", "sint32", "uint64", "sint64", "real32", "real64"}
   QualTypes = {"string", "boolean", "uint32", "real64", "datetime", "char16", "sint8"}
   KeyTypes = {"string", "char16", "boolean", "datetime", "uint8", "sint64", "uint64", "real64", "numeric"}
-  Shapes = {"null", "nulla", "scalar", "empty", "v", "n", "vn"}
+  Shapes = {"null", "nulla", "scalar", "empty", "v", "n", "vn", "nv", "vv", "nn", "nvn", "nnv", "vnn", "nvnv"}
   StrVals <- StrValsSim
   CharVals = {"ltr", "sp", "lt", "amp", "quot", "apos", "nbsp"}
   Names = {"a", "b", "c", "d"}
